@@ -787,6 +787,9 @@ func (r *rewriter) rewrite(f *ast.File) *ast.File {
 			fn := "Select"
 			if hasDefault {
 				fn = "SelectDefault"
+			} else {
+				// keeps "select with return in every case" a terminating statement
+				sw.Body.List = append(sw.Body.List, &ast.CaseClause{Body: []ast.Stmt{&ast.ExprStmt{X: call(ast.NewIdent("panic"), &ast.BasicLit{Kind: token.STRING, Value: `"vs: select returned no case"`})}}})
 			}
 			sw.Tag = call(vsel(fn), cases...)
 			c.Replace(&ast.BlockStmt{List: append(pre, sw)})
